@@ -130,6 +130,7 @@ def run_case(sname, delay, bad_idx, pos, filler):
                     break
                 action2 = good[(filler + k2) % len(good)]
                 allowed.append(denote(action2))
+                submitted.append(("good", action2))
                 before2 = snapshot(env)
                 n2 = len(env.broker.track_record)
                 try:
@@ -144,6 +145,14 @@ def run_case(sname, delay, bad_idx, pos, filler):
                     if got2 not in allowed:
                         msgs.append("after the malformed action %r was rejected at step %d, step %d executed allocation %r, which no "
                                     "in-space submitted action denotes (submitted: %r)" % (submitted[due[0]][1], k, k2, got2, allowed))
+                        break
+                    # the rejection must not shorten the delay: what call k2 executes was submitted at call k2 - delay or earlier
+                    # (or is the null / flat allocation); whether the in-space action submitted WITH the rejecting call is kept is left open
+                    old_enough = [denote(a) for kind, a in submitted[:max(0, k2 - delay + 1)] if kind == "good"]
+                    nulls = [denote(0) if sname.startswith("disc") else {}, {}]
+                    if delay and got2 not in old_enough and got2 not in nulls:
+                        msgs.append("after the rejection at step %d (delay %d), step %d executed %r, an action submitted fewer than %d calls earlier"
+                                    % (k, delay, k2, got2, delay))
                         break
             break
         # the call succeeded: what was executed must be the decision submitted `delay` steps earlier
